@@ -391,6 +391,10 @@ class World:
             return 1e300          # finite, far beyond what a timedelta can hold: still just a delay to be capped
         if v == "-huge":
             return -1e300
+        if v == "hugeint":
+            return 10**400        # a finite int no float can hold
+        if v == "-hugeint":
+            return -10**400
         return v * vclock.TICK
 
     def strategy_ctx(self, sid, ctx):
